@@ -768,16 +768,17 @@ def run(ctx: Ctx) -> None:
     )
     cases: list[tuple[dict, str]] = load_corpus()
     # the fault at every line of one generated file (a different file per seed), plus random scenarios
-    base = gen_scenario(rng, 'ok')
-    while len(base['new']['nbrs']) < 2 or not base['up']:
+    for _ in range(1 if ctx.tier == 'quick' else 6):
         base = gen_scenario(rng, 'ok')
-    base['mode'] = 'settled'
-    base.pop('fault', None)
-    cases += [(v, 'every-line') for v in every_line(base)]
+        while len(base['new']['nbrs']) < 2 or not base['up']:
+            base = gen_scenario(rng, 'ok')
+        base['mode'] = 'settled'
+        base.pop('fault', None)
+        cases += [(v, 'every-line') for v in every_line(base)]
     for i in range(ncases):
         cases.append((gen_scenario(rng), 'random'))
     drv = common.Driver('drv_reload') if ctx.driver_ok else None
-    best: dict[str, tuple[int, dict, str]] = {}  # canonical failure -> (size, scenario, what)
+    best: dict[str, tuple[tuple, dict, str]] = {}  # canonical failure -> (rank, scenario, what); corpus cases first
     try:
         for sc, origin in cases:
             if ctx.time_left() < 0:
@@ -807,13 +808,15 @@ def run(ctx: Ctx) -> None:
             for c, what in res['failures']:
                 ctx.count('oracle-fail:' + '/'.join(c))
                 key = json.dumps(c)
-                if key not in best or size(sc) < best[key][0]:
-                    best[key] = (size(sc), sc, what)
+                rank = (origin in ('random', 'every-line'), size(sc))
+                if key not in best or rank < best[key][0]:
+                    best[key] = (rank, sc, what)
     finally:
         if drv is not None:
             drv.close()
     for key, (_, sc, what) in sorted(best.items()):
         ctx.failures.append(Failure('reload', json.loads(key), {'scenario': sc}, what))
+    ctx.notes.append('observed, outside the wording of C17 (not raised): validate() errors are swallowed by _reload (returns True either way); a reload that adds a route parked by `watchdog … withdraw` announces it (replace_reload force-adds it)')
 
 
 def replay(path: str) -> int:
